@@ -37,7 +37,7 @@ reg('ElementTriP2', 'tri', 'h1', 'value', 2, pou=True, nodal=True)
 reg('ElementTriP3', 'tri', 'h1', 'value', 3, pou=True, nodal=True)
 reg('ElementTriP4', 'tri', 'h1', 'value', 4, pou=True, nodal=True)
 reg('ElementTriCR', 'tri', 'noncon', None, 1, pou=True, nodal=True)
-reg('ElementTriCCR', 'tri', 'h1', 'value', 2, nodal=True, pou=True)
+reg('ElementTriCCR', 'tri', 'h1', 'value', 2)
 reg('ElementTriMini', 'tri', 'h1', 'value', 1)
 reg('ElementTriP1B', 'tri', 'h1', 'value', 1)
 reg('ElementTriP2B', 'tri', 'h1', 'value', 2)
